@@ -111,6 +111,21 @@ class K17(Harness):
     signature = staticmethod(_sig)
 
 
+def yes_no_options():
+    """(rule, option) pairs whose shipped value is 'yes'/'no' - one per distinct option name, in rule order"""
+    if "yn" not in _RL:
+        out, seen = [], set()
+        for r in fresh_rules().rules:
+            if rule_list.is_rule_deprecated(r):
+                continue
+            for k in r.configuration:
+                if getattr(r, k, None) in ("yes", "no") and k not in seen:
+                    seen.add(k)
+                    out.append((r.unique_id, k))
+        _RL["yn"] = out
+    return _RL["yn"]
+
+
 @register
 class K17b(Harness):
     name = "K17b"
@@ -118,7 +133,7 @@ class K17b(Harness):
     title = "whole rule list: configuration emitted under a style, fed back with no style, is emitted identically"
     functions = ("vsg.rule_list", "vsg.rule", "vsg.config")
     stubs = K17.stubs
-    bounds = "styles {none, jcl, indent_only}; a symbolic global indent_size (0..9) and a symbolic global disable on top"
+    bounds = "styles {none, jcl, indent_only}; a symbolic global indent_size (0..9) and a symbolic global disable on top; one yes/no option (one representative rule per distinct option name) set to True / False / 'yes' / 'no'"
     outside = "user-defined severities at rule-list level (see DESIGN.md findings)"
     exception_props = ("C17", "C19")
 
@@ -136,6 +151,12 @@ class K17b(Harness):
         if eng.bool("set_disable"):
             g["disable"] = eng.bool("disable")
         rules["global"] = g
+        # one yes/no option of one rule written the way YAML users write it (unquoted yes/no arrive as booleans) or as a string
+        yn = yes_no_options()
+        pick = yn[eng.choose("yn_rule", len(yn))]
+        val = [True, False, "yes", "no"][eng.choose("yn_value", 4)]
+        rules[pick[0]] = dict(rules.get(pick[0], {}))
+        rules[pick[0]][pick[1]] = val
         d["rule"] = rules
         c = config.config()
         c.dConfig = d
@@ -150,7 +171,11 @@ class K17b(Harness):
         rl2 = rule_list.rule_list(vhdlFile_pkg.vhdlFile([""]), base.severity_list)
         rl2.configure(c2)
         e2 = json_roundtrip(rl2.get_configuration())
-        return [("same_rules", set(e1.keys()) == set(e2.keys())), ("emit_is_idempotent", And([Eq(e1[k], e2[k]) for k in e1 if k in e2]))]
+        ra = [x for x in rl.rules if x.unique_id == pick[0]][0]
+        rb = [x for x in rl2.rules if x.unique_id == pick[0]][0]
+        a, b = getattr(ra, pick[1]), getattr(rb, pick[1])
+        return [("same_rules", set(e1.keys()) == set(e2.keys())), ("emit_is_idempotent", And([Eq(e1[k], e2[k]) for k in e1 if k in e2])),
+                ("effective_option_same_after_round_trip", type(a) is type(b) and a == b)]
 
     signature = staticmethod(_sig)
 
